@@ -1,5 +1,5 @@
 import slayer
-from props.scommon import scen, preempt_scenario, pp_exact_fit_scenario, pp_cutoff_scenario
+from props.scommon import scen, preempt_scenario, pp_exact_fit_scenario, pp_cutoff_scenario, preempt_lockstep_scenario
 """C12 - priority: strict priority order, work conservation, query-only preemption"""
 
 
@@ -10,6 +10,8 @@ def scenarios(ctx, n):
         yield preempt_scenario(s + i)
     for i in range(max(6, n // 10)):
         yield pp_cutoff_scenario(s + i)
+    for i in range(max(8, n // 8)):
+        yield preempt_lockstep_scenario(s + i)
 
 
 def run(ctx):
